@@ -499,8 +499,8 @@ class _Stats(Stats):
 
 
 def plan(tier, seed):
-    nf = 1500 if tier == 'quick' else 30000
-    nc = 500 if tier == 'quick' else 8000
+    nf = 5000 if tier == 'quick' else 40000
+    nc = 1500 if tier == 'quick' else 10000
     return ([{"kind": "table"}] +
             [{"kind": "fuzz", "seed": seed * 100 + i, "n": nf}
              for i in range(3)] +
